@@ -915,8 +915,9 @@ static int write_table(void *context, cif_value_tp *table_value) {
                 cif_value_tp *kv = NULL;
                 cif_value_tp *value = NULL;
 
-                if (cif_value_get_item_by_key(table_value, *key, &value) != CIF_OK) {
-                    FAIL(soft, CIF_INTERNAL_ERROR);
+                /* looking the value up normalizes the key, which can fail for lack of memory */
+                if ((result = cif_value_get_item_by_key(table_value, *key, &value)) != CIF_OK) {
+                    FAIL(soft, (result == CIF_MEMORY_ERROR) ? CIF_MEMORY_ERROR : CIF_INTERNAL_ERROR);
                 }
 
                 /*
